@@ -4,7 +4,7 @@ import pathrun as P
 from common import cz, czl, czll, cnl, clist, TieBroken
 
 
-def containers(np, torch, flat_batch, matrix_shape, single):
+def containers(np, torch, flat_batch, matrix_shape, single, negative_strides=False):
     """All forms of the same batch of states: (label, object). flat_batch: list of flat int lists."""
     out = []
     vals = [v for s in flat_batch for v in s]
@@ -28,6 +28,15 @@ def containers(np, torch, flat_batch, matrix_shape, single):
             info = torch.iinfo(dt)
             if info.min <= lo and hi <= info.max:
                 out.append((f"torch.{str(dt).split('.')[-1]}/{fname}", torch.tensor(obj, dtype=dt)))
+        # the same logical array in another memory layout: a reversed view of the reversed data, Fortran order, a transposed view
+        a = np.array(obj, dtype=np.int64)
+        if negative_strides:
+            # torch.as_tensor refuses negative strides (a documented torch limitation, the call raises): only where the library converts
+            # through NumPy itself (central states) is such a view part of the container matrix
+            out.append((f"np.int64/{fname}/negative-stride view", np.ascontiguousarray(a[::-1])[::-1]))
+        if a.ndim >= 2:
+            out.append((f"np.int64/{fname}/fortran order", np.asfortranarray(a)))
+            out.append((f"torch.int64/{fname}/transposed view", torch.tensor(np.ascontiguousarray(a.T)).T if a.ndim == 2 else torch.tensor(a)))
     return out
 
 
@@ -118,9 +127,13 @@ def run(ctx):
             cs = containers(np, torch, batch, mshape, single=(len(batch) == 1))
             base = safe(lambda: fn(cs[0][1]))
             for label, obj in cs:
+                before = canon(obj)
                 got = safe(lambda: fn(obj))
                 cell = f"{ep} | {label} | {tag}"
                 ok = got == base
+                if canon(obj) != before:
+                    ctx.violation("property_fails", f"{ep} modified the {label} object it was given (the caller's states changed under it)",
+                                  {"cell": cell, "graph": gd, "config": cfgd, "batch": batch}, True)
                 prev = cells.get(cell)
                 cells[cell] = (prev[0] and ok, prev[1] + 1) if prev else (ok, 1)
                 ctx.cov["evaluations"] += 1
@@ -145,7 +158,7 @@ def run(ctx):
                 if not ok:
                     ctx.violation("property_fails", f"CayleyGraphDef.create with generators as {label} differs from the list form: {str(got)[:150]}",
                                   {"cell": cell, "gens": gens}, True)
-            cforms = containers(np, torch, [list(gd["central"])], None, single=True)
+            cforms = containers(np, torch, [list(gd["central"])], None, single=True, negative_strides=True)
             if max(gd["central"]) <= 9:
                 cforms.append(("str/flat", "".join(str(v) for v in gd["central"])))
             for label, obj in cforms:
@@ -162,6 +175,27 @@ def run(ctx):
                     if not ok:
                         ctx.violation("property_fails", f"{ep} with {label} differs from the list form: {str(got)[:120]} vs {str(base)[:120]}",
                                       {"cell": cell, "gens": gens, "central": gd["central"]}, True)
+    # matrix generators in every container, the SAME object used for two definitions with different moduli (a definition must neither
+    # depend on the container nor modify it)
+    for n in (2, 3):
+        M = [[rng.randint(-3, 3) for _ in range(n)] for _ in range(n)]
+        for i in range(n):
+            M[i][i] = rng.choice([1, -1])
+        forms = [("list/rows", M)] + [(f"np.{np.dtype(dt).name}/rows", np.array(M, dtype=dt)) for dt in (np.int8, np.int16, np.int32, np.int64)] \
+            + [(f"torch.{str(dt).split('.')[-1]}/rows", torch.tensor(M, dtype=dt)) for dt in (torch.int8, torch.int32, torch.int64)] \
+            + [("np.int64/rows/fortran order", np.asfortranarray(np.array(M, dtype=np.int64)))]
+        for label, obj in forms:
+            before = canon(obj)
+            got = safe(lambda: [MatrixGenerator.create(obj, modulo=m).matrix.tolist() for m in (5, 7, 0, 3)])
+            want = ("ok", canon([[[(v % m if m else v) for v in row] for row in M] for m in (5, 7, 0, 3)]))
+            cell = f"MatrixGenerator.create x4 moduli | {label} | matrix/n={n}"
+            ok = got == want and canon(obj) == before
+            prev = cells.get(cell)
+            cells[cell] = (prev[0] and ok, prev[1] + 1) if prev else (ok, 1)
+            ctx.cov["evaluations"] += 1
+            if not ok:
+                ctx.violation("property_fails", f"MatrixGenerator.create from {label} (same object, moduli 5, 7, 0, 3) gives {str(got)[:120]}, expected {str(want)[:120]}"
+                              + ("; the caller's matrix was modified" if canon(obj) != before else ""), {"cell": cell, "matrix": M}, True)
     # generators of WIDE permutation graphs in every container: what the graph built from them DOES (neighbours, first layers), not only
     # the values stored in the definition (narrow NumPy scalars kept inside the definition overflowed in later index arithmetic: finding F23)
     for n in (12, 50, 64, 100):
